@@ -342,7 +342,37 @@ func (c *Ctx) errorPropagates(f *ssa.Function, cv *ssa.Call, ev ssa.Value) (bool
 			return false
 		}
 		cl, _ := callOf(a.X)
-		return cl != nil && cl != cv && calleeFullName(&cl.Call) == calleeFullName(&cv.Call)
+		if cl != nil && cl != cv && calleeFullName(&cl.Call) == calleeFullName(&cv.Call) {
+			return true
+		}
+		// `fd, err = open(...)` a second time into the same variables: the test is on the merge of this error and the
+		// retry's. Where the merge carries this error it is not nil (we are on its non-nil edge), so its nil edge means
+		// the retry succeeded
+		var merged []ssa.Value
+		if ph, ok := strip(a.X).(*ssa.Phi); ok {
+			merged = ph.Edges
+		} else if ld, ok := strip(a.X).(*ssa.UnOp); ok {
+			// the same through a variable cell (a named result): the assignments that can reach the tested load
+			if vals, ok := reachingStoreVals(ld); ok && len(vals) > 1 {
+				merged = vals
+			}
+		}
+		if merged != nil {
+			sawRetry := false
+			for _, pe := range merged {
+				pe = strip(pe)
+				if pe == ev || holdsValue(pe, ev) {
+					continue
+				}
+				if c2, _ := callOf(pe); c2 != nil && c2 != cv && calleeFullName(&c2.Call) == calleeFullName(&cv.Call) {
+					sawRetry = true
+					continue
+				}
+				return false
+			}
+			return sawRetry
+		}
+		return false
 	})
 	definitelyFails := func(r *ssa.Return) bool {
 		if derives(r) {
@@ -375,14 +405,90 @@ func (c *Ctx) errorPropagates(f *ssa.Function, cv *ssa.Call, ev ssa.Value) (bool
 		}
 		return true
 	}
+	// a later success of this very call (the loop comes round again) also leads on to success legitimately
+	selfOK := edgesWhere(f, func(a Atom, holds bool) bool {
+		return a.Kind == "nil" && holds && (strip(a.X) == ev || holdsValue(strip(a.X), ev))
+	})
 	for e := range nonNil {
 		region := reach(e.To(), retryOK, nil)
 		for _, r := range returnsOf(f) {
 			if !region[r.Block()] || r.Block().Comment == "recover" {
 				continue
 			}
-			// only returns dominated by the non-nil edge belong to the error handling
+			// returns dominated by the non-nil edge belong to the error handling; a return the failure merely flows into
+			// (`break` out of a loop to a shared `return err`) must hand back, on the edges the failure arrives over,
+			// the error or something built from it
 			if !mustPassEdges(f, r.Block(), nonNil) {
+				if len(r.Results) == 0 {
+					continue
+				}
+				both := map[edge]bool{}
+				for k := range retryOK {
+					both[k] = true
+				}
+				for k := range selfOK {
+					both[k] = true
+				}
+				failRegion := reach(e.To(), both, nil)
+				if !failRegion[r.Block()] {
+					continue
+				}
+				var bad string
+				seenV := map[ssa.Value]bool{}
+				var chk func(v ssa.Value, at *ssa.BasicBlock, d int)
+				chk = func(v ssa.Value, at *ssa.BasicBlock, d int) {
+					if bad != "" || d > 6 {
+						return
+					}
+					v = strip(v)
+					if ph, ok := v.(*ssa.Phi); ok && !seenV[v] {
+						seenV[v] = true
+						for i, pe := range ph.Edges {
+							pred := ph.Block().Preds[i]
+							if failRegion[pred] || pred == e.From {
+								chk(pe, pred, d+1)
+							}
+						}
+						return
+					}
+					if v == ev || holdsValue(v, ev) || derivesFrom(v, ev) {
+						return
+					}
+					if cl, ok := v.(*ssa.Call); ok {
+						if n := calleeFullName(&cl.Call); n == "errors.New" || n == "fmt.Errorf" || n == "errors.Join" {
+							return
+						}
+					}
+					if u, ok := v.(*ssa.UnOp); ok {
+						if g, ok := u.X.(*ssa.Global); ok && isSentinelErrorVar(g) {
+							return
+						}
+						// a result variable: what was stored into it on the failure path
+						if cell := cellOf(u.X); cell != nil {
+							okStore := false
+							for _, st := range cellStores(cell) {
+								if st.Parent() == f && failRegion[st.Block()] && (strip(st.Val) == ev || derivesFrom(st.Val, ev)) {
+									okStore = true
+								}
+							}
+							if okStore {
+								return
+							}
+						}
+					}
+					if isNilConst(v) {
+						bad = "nil"
+						return
+					}
+					if c.definitelyFails(f, r) {
+						return
+					}
+					bad = c.canon(v)
+				}
+				chk(returnedValue(r, len(r.Results)-1), r.Block(), 0)
+				if bad != "" {
+					return false, fmt.Sprintf("a failure of the call flows into the return at %s, which hands back %s there (an error variable shadowed by := or never assigned?): the failure is reported as success", c.Pos(r.Pos()), bad)
+				}
 				continue
 			}
 			if definitelyFails(r) {
@@ -571,8 +677,39 @@ func (c *Ctx) fieldStoresOfType(f *ssa.Function, typeName string) map[string][]s
 				return
 			}
 			fa, ok := st.Addr.(*ssa.FieldAddr)
-			if !ok || namedTypeName(fa.X.Type()) != typeName {
+			if !ok {
 				return
+			}
+			// the embedded struct filled as a literal of its own and stored whole (*(&out.header) = *(&hdrLiteral))
+			if namedTypeName(fa.X.Type()) == typeName && embeddedField(fa.X.Type(), fa.Field) {
+				if ld, isLoad := st.Val.(*ssa.UnOp); isLoad && ld.Op == token.MUL {
+					if lit, isAlloc := ld.X.(*ssa.Alloc); isAlloc && lit.Referrers() != nil {
+						for _, lr := range *lit.Referrers() {
+							lfa, ok := lr.(*ssa.FieldAddr)
+							if !ok || lfa.Referrers() == nil {
+								continue
+							}
+							for _, u := range *lfa.Referrers() {
+								if ls, ok := u.(*ssa.Store); ok && ls.Addr == ssa.Value(lfa) {
+									v := ls.Val
+									if e != nil {
+										v = resolveEnv(v, e)
+									}
+									n := fieldName(lfa.X.Type(), lfa.Field)
+									out[n] = append(out[n], v)
+								}
+							}
+						}
+					}
+				}
+				return
+			}
+			if namedTypeName(fa.X.Type()) != typeName {
+				// a field of a struct embedded in the reply type (createOutput{entityHeaderOutput{ID: ...}}): promoted
+				outer, isNested := fa.X.(*ssa.FieldAddr)
+				if !isNested || namedTypeName(outer.X.Type()) != typeName || !embeddedField(outer.X.Type(), outer.Field) {
+					return
+				}
 			}
 			n := fieldName(fa.X.Type(), fa.Field)
 			v := st.Val
@@ -1338,4 +1475,13 @@ func derivesFromLocal(v, src ssa.Value) bool {
 		return false
 	}
 	return walk(v, 0)
+}
+
+// embeddedField: field i of the (pointer to) struct type t is an embedded (anonymous) field.
+func embeddedField(t types.Type, i int) bool {
+	if pt, ok := t.Underlying().(*types.Pointer); ok {
+		t = pt.Elem()
+	}
+	st, ok := t.Underlying().(*types.Struct)
+	return ok && i < st.NumFields() && st.Field(i).Embedded()
 }
